@@ -14,6 +14,7 @@ from typing import Mapping
 from typing import MutableMapping
 from typing import MutableSequence
 from typing import Sequence
+from typing import Tuple
 from typing import TypeVar
 from typing import Union
 
@@ -39,6 +40,26 @@ def _member_name(
     if isinstance(key, int) and key not in parent:
         return str(key)
     return key
+
+
+def _resolve_target(
+    pointer: JSONPointer,
+    data: Union[MutableSequence[object], MutableMapping[str, object]],
+) -> Tuple[object, object]:
+    """Resolve the parent and target of a patch operation.
+
+    `JSONPointer` resolves some non-standard tokens, like `~name`, to the name
+    of a member. Such a token does not address a member of the target document,
+    so a patch operation must see it as missing.
+    """
+    parent, obj = pointer.resolve_parent(data)
+    if (
+        obj is not UNDEFINED
+        and isinstance(parent, Mapping)
+        and _member_name(parent, pointer.parts[-1]) not in parent
+    ):
+        obj = UNDEFINED
+    return parent, obj
 
 
 def _array_index(key: Union[int, str]) -> int:
@@ -108,7 +129,7 @@ class OpAdd(Op):
         # Insert a copy so the patch and the caller's operations stay intact when
         # later operations, or users of the result, modify the inserted value.
         value = copy.deepcopy(self.value)
-        parent, obj = self.path.resolve_parent(data)
+        parent, obj = _resolve_target(self.path, data)
         if parent is None:
             # Replace the root object.
             # The following op, if any, will raise a JSONPatchError if needed.
@@ -154,7 +175,7 @@ class OpAddNe(OpAdd):
         self, data: Union[MutableSequence[object], MutableMapping[str, object]]
     ) -> Union[MutableSequence[object], MutableMapping[str, object]]:
         """Apply this patch operation to _data_."""
-        parent, _ = self.path.resolve_parent(data)
+        parent, _ = _resolve_target(self.path, data)
         if (
             isinstance(parent, MutableMapping)
             and _member_name(parent, self.path.parts[-1]) in parent
@@ -185,7 +206,7 @@ class OpAddAp(OpAdd):
         # Insert a copy so the patch and the caller's operations stay intact when
         # later operations, or users of the result, modify the inserted value.
         value = copy.deepcopy(self.value)
-        parent, obj = self.path.resolve_parent(data)
+        parent, obj = _resolve_target(self.path, data)
         if parent is None:
             # Replace the root object.
             # The following op, if any, will raise a JSONPatchError if needed.
@@ -220,7 +241,7 @@ class OpRemove(Op):
         self, data: Union[MutableSequence[object], MutableMapping[str, object]]
     ) -> Union[MutableSequence[object], MutableMapping[str, object]]:
         """Apply this patch operation to _data_."""
-        parent, obj = self.path.resolve_parent(data)
+        parent, obj = _resolve_target(self.path, data)
         if parent is None:
             raise JSONPatchError("can't remove root")
 
@@ -261,7 +282,7 @@ class OpReplace(Op):
         # Insert a copy so the patch and the caller's operations stay intact when
         # later operations, or users of the result, modify the inserted value.
         value = copy.deepcopy(self.value)
-        parent, obj = self.path.resolve_parent(data)
+        parent, obj = _resolve_target(self.path, data)
         if parent is None:
             return value  # type: ignore
 
@@ -302,7 +323,7 @@ class OpMove(Op):
         if self.dest.is_relative_to(self.source):
             raise JSONPatchError("can't move object to one of its own children")
 
-        source_parent, source_obj = self.source.resolve_parent(data)
+        source_parent, source_obj = _resolve_target(self.source, data)
 
         if source_obj is UNDEFINED:
             raise JSONPatchError("source object does not exist")
@@ -336,7 +357,7 @@ class OpCopy(Op):
         self, data: Union[MutableSequence[object], MutableMapping[str, object]]
     ) -> Union[MutableSequence[object], MutableMapping[str, object]]:
         """Apply this patch operation to _data_."""
-        source_parent, source_obj = self.source.resolve_parent(data)
+        source_parent, source_obj = _resolve_target(self.source, data)
 
         if source_obj is UNDEFINED:
             raise JSONPatchError("source object does not exist")
@@ -366,7 +387,7 @@ class OpTest(Op):
         self, data: Union[MutableSequence[object], MutableMapping[str, object]]
     ) -> Union[MutableSequence[object], MutableMapping[str, object]]:
         """Apply this patch operation to _data_."""
-        _, obj = self.path.resolve_parent(data)
+        _, obj = _resolve_target(self.path, data)
         if not _json_equal(obj, self.value):
             raise JSONPatchTestFailure
         return data
